@@ -3,7 +3,6 @@ package main
 import (
 	"context"
 	"fmt"
-	"math/rand"
 	"runtime"
 	"strings"
 	"sync"
@@ -47,7 +46,7 @@ func fromOf(sig string) int {
 // record runs n random concurrent scenarios and prints one history per line: {"hist":[events]}.
 // Events: init / call / enter / exit / ret / end (see spec/wrappers/WrappersTrace.tla).
 func record(n int, seed int64) {
-	rng := rand.New(rand.NewSource(seed))
+	rng := rt.NewRand(seed)
 	fams := []string{"once", "once", "limit", "limit", "limit", "oplimit", "lock", "launch", "launch"}
 	classes := []string{"ok", "err", "skip", "eof", "ctx", "panic"}
 	for i := 0; i < n; i++ {
@@ -82,7 +81,7 @@ func record(n int, seed int64) {
 		var sw sync.WaitGroup
 		start := make(chan struct{})
 		for t := 0; t < nthreads; t++ {
-			r := rand.New(rand.NewSource(rng.Int63()))
+			r := rt.NewRand(rng.Int63())
 			ncalls := 1 + r.Intn(3)
 			if fam == "launch" {
 				ncalls = 1
